@@ -28,6 +28,17 @@ CHAIN_HARNESS = os.path.join(vf.ROOT, "harness/py/chain_harness.py")
 SAN = ["-fsanitize=address,undefined", "-fno-sanitize-recover=all", "-fno-omit-frame-pointer"]
 H = 2715648
 
+MANIFEST_TEXT = ("; chain part (Props/C20Chain): the decoded list end to end - chain_ms_side (gsm48_rr_render_ma + l1ctl_tx_dm_est_req_h1: same channels, "
+                 "same order, PCS flag on 512..810 of a PCS cell, n = N, network byte order), chain_cbch_side (SI4 CBCH caller), chain_setfh (trxcon emits exactly "
+                 "`CMD SETFH hsn maio rx1 tx1 .. rxN txN\\0` with 100*gsm_arfcn2freq10 of the decoded channels in decoded order when the text fits ma_buf), "
+                 "chain_enospc_limit / chain_setfh_enospc / chain_setfh_full_fails (14*a + 16*b <= 999 characters: 63 or 64 DCS 1800 / PCS 1900 channels are refused "
+                 "with -ENOSPC, nothing is sent), chain_fake_trx (HoppingParams(hsn, maio, Hz pairs) same N same order, RSP SETFH 0), chain_channel / "
+                 "chain_end_to_end (get_rx_freq/get_tx_freq(fn) = pair of decoded[MAI] per TS 45.002, firmware rfch_get_params on the same L1CTL message = the "
+                 "same ARFCN, every frame), chain_injective, chain_order; tie: real decoder -> extracted layer23/trxcon/firmware glue (ASan+UBSan) -> real "
+                 "trx_if.c -> real FakeTRX -> real get_rx_freq / rfch.c, every stage against the composed Lean models and an independent reference")
+MANIFEST_NOTE = ("; chain part trusted additionally: gen/hop_chain.py (extractor), harness/c/c20_glue_harness.c, harness/py/chain_harness.py, the stubs listed in "
+                 "the assumptions; modelled not verified: L1CTL / UDP sockets, the callers around the glue, the non-Mobile-Allocation branches of gsm48_rr_render_ma")
+
 ASSUMPTIONS = [
     "chain part: theorems compose the models of the decoder (Model/MobileAlloc), trxcon's emitter (Model/TrxconIf), the fake_trx world (Model/World, PyStr) and the hopping code (Model/Hopping) with OsmoVerif.Model.HopChain: a hand model, statement by statement, of the mobile-allocation branch of gsm48_rr_render_ma incl. the 'convert to band_arfcn' loop and arfcn2index (layer23), l1ctl_tx_dm_est_req_h1 (uint8_t n, htons copy loop into ma[64]), trxcon's l1ctl_proc_est_req_h1 (n = 0, n > 64, ntohs copy loop) and handle_dch_est_req (SETFREQ_H1 parameters), the firmware's l1ctl_rx_dm_est_req copy loop; uint16_t values cross the L1CTL socket as two octets (most significant first), so the model does not depend on the host's byte order",
     "chain part, tie: the CURRENT text of these functions is extracted by name from gsm48_rr.c, gsm322.c, common/l1ctl.c, trxcon/src/l1ctl.c, trxcon_fsm.c and firmware layer1/l23_api.c (three translation units, ASan+UBSan, real msgb.c/talloc.c) and driven with the octets of the real L1CTL message; environment stubbed: struct osmocom_ms / gsm322_cellsel / gsm48_sysinfo / gsm_settings reduced to the members read (array sizes from the tree), gsm_refer_pcs (answers the request's flag), logging sinks, osmo_send_l1 (captures the message), osmo_fsm_inst_dispatch (calls the extracted handle_dch_est_req), the L1 scheduler behind the PHY command, trx_if_handle_phyif_cmd behind the real trxcon_phyif_handle_cmd of trxcon_main.c (records the command, which is then given to the real trx_if.c in the harness of props/trxcon_part.py), firmware mframe/audio/TCH helpers, ntohs of the host's libc in place of the firmware's byteorder.h",
@@ -450,7 +461,7 @@ def assemble(c, o):
 
 def correspond(run, corr):
     rng = random.Random(run.seed * 7919 + 20)
-    scale = 8 if run.thorough else 1
+    scale = 40 if run.thorough else 2
     cases = make_cases(run, rng, scale)
     obs = run_real(run, cases)
     run.c20_chain = {"cases": cases, "obs": obs}
@@ -622,6 +633,10 @@ def oracle(run, corr, deep):
     corr.distribution["oracle(chain): cases judged end to end"] = judged
     corr.distribution["oracle(chain): failing cases"] = len(bad)
     corr.distribution["oracle(chain): legal allocations refused with -ENOSPC (DCS/PCS, text > 999 characters; chain_setfh_full_fails)"] = pending
+    if pending:
+        corr.notes.append("chain: %d legal DCS 1800 / PCS 1900 allocations of 63 or 64 channels were refused by trx_if_cmd_setfh with -ENOSPC (no SETFH "
+                          "sent): the excluded region of Props/C20Chain.chain_setfh (hypothesis Fits), Lean: chain_setfh_full_fails; reported as a "
+                          "witness of kind chain-setfh-enospc once known_findings.json lists it" % pending)
     return found
 
 
